@@ -67,6 +67,25 @@ func hasPrefixFold(s, prefix string) bool {
 	return len(s) >= len(prefix) && strings.EqualFold(s[:len(prefix)], prefix)
 }
 
+// doctypeEnd returns the index of the ">" that closes a doctype declaration, or -1.
+// A ">" inside a quoted public or system identifier does not close it.
+func doctypeEnd(s string) int {
+	var quote byte
+	for i := 0; i < len(s); i++ {
+		switch c := s[i]; {
+		case quote != 0:
+			if c == quote {
+				quote = 0
+			}
+		case c == '"' || c == '\'':
+			quote = c
+		case c == '>':
+			return i
+		}
+	}
+	return -1
+}
+
 // formatFullDocument formats a complete HTML document.
 func (f *Formatter) formatFullDocument(frontmatter, body string) (string, error) {
 	trimmedBody := strings.TrimSpace(body)
@@ -76,8 +95,8 @@ func (f *Formatter) formatFullDocument(frontmatter, body string) (string, error)
 	var htmlContent string
 
 	if hasPrefixFold(trimmedBody, "<!DOCTYPE") {
-		// Find the end of DOCTYPE declaration
-		endIdx := strings.Index(trimmedBody, ">")
+		// Find the end of DOCTYPE declaration: the first ">" outside a quoted identifier
+		endIdx := doctypeEnd(trimmedBody)
 		if endIdx != -1 {
 			doctype = trimmedBody[:endIdx+1]
 			htmlContent = strings.TrimSpace(trimmedBody[endIdx+1:])
